@@ -87,6 +87,10 @@ class AttachUnit(Unit):
         s = X.call(S, d1, 512)
         self.after_first = (d1.opcodes, d1.devicetype, list(w.trace))
         X.call(s.__call__, d2)
+        # a fresh facade attached directly to an identical second device: the selection must be the same
+        d3 = AnsweringDevice(C.table(case["second_initial"]), w, a.resp2)
+        self.d3 = d3
+        X.call(S, d3, 512)
         return s
 
     def ensures(self, case, a, out, X):
@@ -102,6 +106,7 @@ class AttachUnit(Unit):
         # re-attach
         ex2 = [t for t in w.trace if t[0] == "device.execute" and t[6] is d2]
         yield from selection_clauses("re-attach:", d2, a.resp2[0], C.table(case["second_initial"]), ex2)
+        yield "C16", "re-attach:selection-does-not-depend-on-the-previously-attached-device", d2.opcodes is self.d3.opcodes and V.compare("==", d2.devicetype, self.d3.devicetype) is not False
         yield "C16", "re-attach:facade-now-uses-the-second-device", out.value.device is d2
         yield "C16", "re-attach:first-device-untouched", d1.opcodes is sel1 and len([t for t in w.trace if t[0] == "device.execute" and t[6] is d1]) == 1
         yield "C16", "re-attach:blocksize-kept", out.value.blocksize == 512
